@@ -1,3 +1,7 @@
-import GffProofs.Lemmas.SplitJoin
-open GffProofs
+import GffProofs.Props.C08a
+open GffProofs GffProofs.C08
 #print axioms split_join
+#print axioms unquote_quote
+#print axioms split_total_infer
+#print axioms split_total_provided
+#print axioms split_provided_empty_sep
